@@ -420,8 +420,8 @@ TSys == /\ tl <= Len(Traces[tk])
              /\ \A g \in FaithfulGroups \ {"ksys"} : GroupVal(g)' = GroupVal(g)
              /\ mon' = MonSys(mon, Ev, f)
         /\ tl' = tl + 1
-        /\ tn' = 0
-        /\ UNCHANGED <<tk, xm>>
+        /\ tn' = 0                   \* (tools/assemble.py adds tn to "UNCHANGED <<tk, xm>>": written the other way round here)
+        /\ UNCHANGED <<xm, tk>>
 \* thread-private steps (no tracked effect, no system call) that lead up to the system call of a "sys" record
 TSysPrep == /\ tl <= Len(Traces[tk])
             /\ Ev.k = "sys"
